@@ -100,6 +100,15 @@ Section Dense.
   Definition t_iter (t : table) : list (list T) := t.
   Definition t_iter_rev (t : table) : list (list T) := rev t.
 
+  (* double-ended iteration: [true] = next(), [false] = next_back(); the rows handed
+     out, in call order (iter() and iter_mut() share the macro that implements both) *)
+  Fixpoint take_mixed (pat : list bool) (t : table) : list (list T) :=
+    match pat with
+    | [] => []
+    | true :: p => match t with [] => [] | x :: r => x :: take_mixed p r end
+    | false :: p => match rev t with [] => [] | x :: r => x :: take_mixed p (rev r) end
+    end.
+
   (* ---------- Storage level ---------- *)
 
   (* One Row<T,C>: the C logical cells and the S-C cells of alignment padding. *)
